@@ -104,6 +104,12 @@ def rel_paths(rng, count, depth=3):
     return out
 
 
+class FileList(list):
+    """[(relpath, Blob)] plus the directories of the payload that hold no file at all
+    (`emptydirs`, relative paths): only the creation checks materialise and model them."""
+    emptydirs = ()
+
+
 def tree(rng, B, pl, max_files=6, allow_empty=True, big=True):
     """[(relpath, Blob)] for a directory payload, plus class labels."""
     n = rng.choice([1, 2, 2, 3, 3, 4, 5, max_files])
@@ -123,6 +129,17 @@ def tree(rng, B, pl, max_files=6, allow_empty=True, big=True):
             twin = copy.copy(files[0][1])
             twin.hardlink_of = files[0][0]           # ... as a second name of the same inode
             files[1] = (files[1][0], twin)
+    files = FileList(files)
+    if rng.random() < 0.15:
+        taken = {r for r, _ in files}
+        dirs = []
+        for cand in rng.sample(["void", "a/void", "void/inner", "d/e/mpty", "zz", "0"], rng.choice([1, 2])):
+            comps = cand.split("/")
+            prefixes = {"/".join(comps[:i]) for i in range(1, len(comps) + 1)}
+            if not (prefixes & taken) and not any(r.startswith(cand + "/") for r in taken) \
+                    and not any(d == cand or d.startswith(cand + "/") or cand.startswith(d + "/") for d in dirs):
+                dirs.append(cand)
+        files.emptydirs = tuple(dirs)
     return files, classes
 
 
